@@ -163,7 +163,8 @@ def _long_worker(_):
     return st, out, hs, 'long'
 
 
-MINER_CONFIGS = [((('f',), ('f', 's')), (), off, inter) for off in (0, 1, 120)
+MINER_CONFIGS = [((('f',), ('f', 's')), (), -30, 'none'), ((('f',), ('f', 's')), (), -29, 'none')] + \
+                [((('f',), ('f', 's')), (), off, inter) for off in (0, 1, 120)
                  for inter in ('none', ('none', ('two', 0)), ('clock-advances', ('two', 1)), ('clock-advances', ('after-result', 0)))] + \
                 [((('f',), ('f', 's'), ('f', 's', 'e')), (), off, inter) for off in (0, 120)
                  for inter in (('none', ('two', 0)), ('clock-advances', ('after-request', 0)))]
@@ -189,6 +190,8 @@ def _miner_worker(cfgs):
                 out.append(('own-assembly-rejected-in-miner', what, cfg))
             elif key == 'miner-handler-raises' and 'Validate' in what:
                 out.append(('own-assembly-rejected-in-miner', what, cfg))
+            elif key.startswith('invalid-found-block-adopted'):
+                out.append(('miner-adopts-block-failing-header-rules', what, cfg))
     return n, out
 
 
